@@ -124,10 +124,6 @@ Definition classified : list (site_key * site_class) := [
   (("crates/air-lib/interpreter-data/src/trace.rs", "trace_states_count", "expect", 1), Modelled "Handler.v SiteResultLen: a trace of 2^32 states (>= 2^32 * 40 bytes of input; excluded by the u32 bound of every theorem)");
   (("crates/air-lib/interpreter-data/src/trace.rs", "index", "index", 1), Unreachable "slider_next_state_index_defined");
   (("crates/air-lib/interpreter-data/src/trace.rs", "index_mut", "index", 1), Unreachable "slider_next_state_index_defined");
-  (("crates/air-lib/interpreter-data/src/executed_state/impls.rs", "fmt", "index", 1), OutOfModel "OPEN DEFECT until proposed_fixes/C01-fold-state-display-index.diff is applied: Display of a Fold state indexes subtraces_desc[0] / [1]; KeeperError::NoStreamState prints a state of the adversary's data with it (replay corpus/C01/15-*.json); error texts are opaque in the model");
-  (("crates/air-lib/interpreter-data/src/executed_state/impls.rs", "fmt", "index", 2), OutOfModel "OPEN DEFECT until proposed_fixes/C01-fold-state-display-index.diff is applied: Display of a Fold state indexes subtraces_desc[0] / [1]; KeeperError::NoStreamState prints a state of the adversary's data with it (replay corpus/C01/15-*.json); error texts are opaque in the model");
-  (("crates/air-lib/interpreter-data/src/executed_state/impls.rs", "fmt", "index", 3), OutOfModel "OPEN DEFECT until proposed_fixes/C01-fold-state-display-index.diff is applied: Display of a Fold state indexes subtraces_desc[0] / [1]; KeeperError::NoStreamState prints a state of the adversary's data with it (replay corpus/C01/15-*.json); error texts are opaque in the model");
-  (("crates/air-lib/interpreter-data/src/executed_state/impls.rs", "fmt", "index", 4), OutOfModel "OPEN DEFECT until proposed_fixes/C01-fold-state-display-index.diff is applied: Display of a Fold state indexes subtraces_desc[0] / [1]; KeeperError::NoStreamState prints a state of the adversary's data with it (replay corpus/C01/15-*.json); error texts are opaque in the model");
   (("crates/air-lib/interpreter-data/src/interpreter_data/verification.rs", "new", "expect", 1), OutOfModel "public_key.to_peer_id() after public_key.validate() succeeded for every key of the same store at the top of DataVerifier::new (C15 model Sig.v: validate is the gate)");
   (("crates/air-lib/interpreter-data/src/interpreter_data/verification.rs", "verify", "expect", 1), OutOfModel "public_key.to_peer_id() after public_key.validate() succeeded for every key of the same store at the top of DataVerifier::new (C15 model Sig.v: validate is the gate)");
   (("crates/air-lib/interpreter-data/src/interpreter_data/verification.rs", "check_cid_multiset_invariant", "expect", 1), OutOfModel "public_key.to_peer_id() after public_key.validate() succeeded for every key of the same store at the top of DataVerifier::new (C15 model Sig.v: validate is the gate)");
